@@ -21,7 +21,7 @@ pub fn pool(tier: Tier) -> Vec<Value> {
         v.push(json!({ "a": x }));
         v.push(json!({ "b": x }));
     }
-    let t2: Vec<Value> = if tier == Tier::Thorough { t.clone() } else { vec![json!(null), json!(1), json!(1.0), json!("a")] };
+    let t2: Vec<Value> = t.clone();
     for x in &t2 {
         for y in &t2 {
             v.push(json!([x, y]));
